@@ -35,12 +35,13 @@ In(r, body, l) == (IF r THEN <<TR>> ELSE <<>>) \o body \o (IF l THEN <<TL>> ELSE
 Assign == [t |-> "assign", name |-> <<122>>, e |-> Lit(IntV(1))]
 
 \* -------------------------------------------------------------------- flat
-Pool == [e : {"text"}, i : 1..Len(TX)] \cup [e : {"obj"}, i : 1..3, l : BOOLEAN, r : BOOLEAN] \cup [e : {"tag"}, l : BOOLEAN, r : BOOLEAN]
+\* (object 4 is a number literal: written tight, a hyphen of the delimiter stands right next to a digit)
+Pool == [e : {"text"}, i : 1..Len(TX)] \cup [e : {"obj"}, i : 1..4, l : BOOLEAN, r : BOOLEAN] \cup [e : {"tag"}, l : BOOLEAN, r : BOOLEAN]
 RECURSIVE FlatSeqs(_)
 FlatSeqs(n) == IF n = 0 THEN {<<>>}
                ELSE UNION {{<<x>> \o t : t \in {u \in FlatSeqs(n - 1) : ~(u # <<>> /\ u[1].e = "text" /\ x.e = "text")}} : x \in Pool}
 ElemNodes(x) == CASE x.e = "text" -> <<T(TX[x.i])>>
-                  [] x.e = "obj" -> W(x.l, Ob(Var(VN(x.i))), x.r)
+                  [] x.e = "obj" -> W(x.l, Ob(IF x.i = 4 THEN Lit(Flt(7, 2)) ELSE Var(VN(x.i))), x.r)
                   [] x.e = "tag" -> W(x.l, Assign, x.r)
 
 \* -------------------------------------------------------------------- skel
